@@ -19,7 +19,7 @@ PROPS_FILE = "theories/Props/C13.v"
 COQ_TARGETS = ["theories/Props/C13.vo", "theories/Model/GuardsRun.vo"]
 DRIVER = None
 LEVEL = "proof"
-RULE = ("two feature-covering seed documents (simple, CID and Type3 fonts, ToUnicode, encoding Differences, W/W2, forms, "
+RULE = ("three feature-covering seed documents (embedded TrueType / Type 1 / CFF programs, RunLength / ASCIIHex / LZW+predictor streams, DeviceN / Indexed / Lab colour spaces, a CCITT inline image, a predefined CJK CMap, nested forms; simple, CID and Type3 fonts, ToUnicode, encoding Differences, W/W2, forms, "
         "images with filter chains, inline images, colour spaces, outlines, page labels and named destinations as trees, "
         "inherited page attributes, Flate content); every single structural fault: each dictionary value and array "
         "element replaced by a value of another type (int, negative, real, 10^12, name, string, empty/non-empty array and "
@@ -45,8 +45,8 @@ MANIFEST_ENTRY = {
     "text": "Theorems: resolve1 returns the end of every chain of <= 100 references and the default on every cycle; "
             "guarded descents (forms, number/name tree Kids) terminate on every finite object graph, cyclic or not, at "
             "depth <= number of objects + 1; CMap and W ranges take <= 65536 steps and are exact below the limit. "
-            "Observed fault by fault: no hang, no RecursionError, work within budget; exception leaks are listed site by "
-            "site in known_findings.json and any new site is reported.",
+            "Observed fault by fault over three seed documents: no hang, no RecursionError, no leaked internal error, work "
+            "within budget (the one recorded exception: work proportional to the page area in the layout plane).",
     "note": "Trusted: Coq kernel, hand model tied by differential runs, the fault enumerator and classifier.",
     "design_ref": "DESIGN.md section 4, C13",
 }
@@ -125,7 +125,58 @@ def seed2():
     }
 
 
-SEEDS = [("seed1", seed1), ("seed2", seed2)]
+def seed3():
+    """embedded font programs (TrueType cmap, Type 1 header, CFF), RunLength / ASCIIHex / LZW+predictor content streams,
+    DeviceN / Indexed / Lab colour spaces, a CCITT inline image, a predefined CJK CMap, nested forms"""
+    import random
+    import c03
+    import c07
+    r = random.Random(3)
+    ttf, _ = c07.gen_ttf(random.Random(5))
+    t1 = (b"%!PS-AdobeFont-1.0: Foo 001.001\n/FontName /Foo def\n/Encoding 256 array\n0 1 255 {1 index exch /.notdef put} for\n"
+          b"dup 65 /B put\ndup 66 /A put\nreadonly def\ncurrentdict end\ncurrentfile eexec\n") + bytes(range(64))
+    content1 = b"BT /F1 12 Tf 72 700 Td (AB) Tj /F2 10 Tf <00200041> Tj /F4 8 Tf (ab) Tj ET /Dn cs 0.2 0.4 scn 0 0 5 5 re f /Ix cs 1 sc 5 5 5 5 re f"
+    content2 = (b"BT /F3 10 Tf 20 100 Td <8140> Tj ET /Lb CS 50 0 0 SC 1 1 m 9 9 l S q 2 0 0 2 0 0 cm /Outer Do Q "
+                b"BI /W 8 /H 1 /BPC 1 /F /CCF /DP << /K -1 /Columns 8 >> ID \x26\xa0\x00\x10\x01\nEI")
+    rows = [list(content2[i:i + 16].ljust(16, b" ")) for i in range(0, len(content2), 16)]
+    pred = c03.png_encode(r, rows, 1)[0]
+    return {
+        1: {"Type": Name("Catalog"), "Pages": Ref(2)},
+        2: {"Type": Name("Pages"), "Kids": [Ref(3), Ref(6)], "Count": 2, "MediaBox": [0, 0, 612, 792]},
+        3: {"Type": Name("Page"), "Parent": Ref(2), "Contents": [Ref(4)],
+            "Resources": {"Font": {"F1": Ref(7), "F2": Ref(10), "F4": Ref(16)},
+                          "ColorSpace": {"Dn": [Name("DeviceN"), [Name("A"), Name("B")], Name("DeviceCMYK"), {"FunctionType": 2}],
+                                         "Ix": [Name("Indexed"), Name("DeviceRGB"), 1, b"\x00\x00\x00\xff\xff\xff"]}}},
+        4: Stream({"Filter": Name("RunLengthDecode")}, c03.rl_encode(r, content1)),
+        6: {"Type": Name("Page"), "Parent": Ref(2), "Contents": Ref(5), "UserUnit": 2,
+            "Resources": {"Font": {"F3": Ref(13)}, "XObject": {"Outer": Ref(20)},
+                          "ColorSpace": {"Lb": [Name("Lab"), {"WhitePoint": [0.9, 1, 1.1], "Range": [-100, 100, -100, 100]}]}}},
+        5: Stream({"Filter": [Name("AHx"), Name("LZWDecode")], "DecodeParms": [None, {"Predictor": 12, "Columns": 16, "Colors": 1, "BitsPerComponent": 8}]},
+                  c03.hex_encode(r, c03.lzw_encode(r, pred))),
+        7: {"Type": Name("Font"), "Subtype": Name("Type1"), "BaseFont": Name("Foo"), "FirstChar": 65, "LastChar": 66, "Widths": [500, 600],
+            "FontDescriptor": {"Type": Name("FontDescriptor"), "FontName": Name("Foo"), "Flags": 4, "FontBBox": [0, -200, 1000, 800],
+                               "FontFile": Ref(8)}},
+        8: Stream({"Length1": len(t1) - 64, "Length2": 64, "Length3": 0}, t1),
+        10: {"Type": Name("Font"), "Subtype": Name("Type0"), "BaseFont": Name("Bar"), "Encoding": Name("Identity-H"), "DescendantFonts": [Ref(11)]},
+        11: {"Type": Name("Font"), "Subtype": Name("CIDFontType2"), "BaseFont": Name("Bar"), "CIDToGIDMap": Name("Identity"),
+             "CIDSystemInfo": {"Registry": b"Adobe", "Ordering": b"Identity", "Supplement": 0}, "DW": 1000, "W": [32, 40, 500],
+             "FontDescriptor": {"Type": Name("FontDescriptor"), "FontName": Name("Bar"), "Flags": 4, "FontBBox": [0, -200, 1000, 800],
+                                "FontFile2": Ref(12)}},
+        12: Stream({"Length1": len(ttf)}, ttf),
+        13: {"Type": Name("Font"), "Subtype": Name("Type0"), "BaseFont": Name("J"), "Encoding": Name("90ms-RKSJ-H"), "DescendantFonts": [Ref(14)]},
+        14: {"Type": Name("Font"), "Subtype": Name("CIDFontType0"), "BaseFont": Name("J"),
+             "CIDSystemInfo": {"Registry": b"Adobe", "Ordering": b"Japan1", "Supplement": 2}, "DW": 1000,
+             "FontDescriptor": {"Type": Name("FontDescriptor"), "FontName": Name("J"), "Flags": 4, "FontBBox": [0, -200, 1000, 800],
+                                "FontFile3": Ref(15)}},
+        15: Stream({"Subtype": Name("CIDFontType0C")}, b"\x01\x00\x04\x01" + bytes(40)),
+        16: {"Type": Name("Font"), "Subtype": Name("MMType1"), "BaseFont": Name("Times-Roman"), "Encoding": Name("StandardEncoding")},
+        20: Stream({"Type": Name("XObject"), "Subtype": Name("Form"), "BBox": [0, 0, 50, 50], "Resources": {"XObject": {"Inner": Ref(21)}}},
+                   b"q /Inner Do Q 0 0 m 1 1 l S"),
+        21: Stream({"Type": Name("XObject"), "Subtype": Name("Form"), "BBox": [0, 0, 10, 10], "Matrix": [1, 0, 0, 1, 2, 2]}, b"0 0 3 3 re f"),
+    }
+
+
+SEEDS = [("seed1", seed1), ("seed2", seed2), ("seed3", seed3)]
 REPL = [0, -1, 1.5, 10 ** 12, Name("X"), b"str", [], [1, 2], {}, {"A": 1}, None, True, "SELF", "MISSING", "CYCLE", "REMOVE"]
 
 
